@@ -461,6 +461,7 @@ func deepSlots(a Args, rng *Rng, out *Out, tv int) {
 						fail("a timer of an outer-level bucket was delivered before its due tick")
 					}
 				}
+				drv.Alive()
 				d.Pass(1)
 				h.Adv(1)
 				_, got := drv.TickDrain(d)
